@@ -191,7 +191,8 @@ struct verif_condition_variable
 
 struct verif_thread
 {
-  int tid_ = -1;
+  int tid_      = -1;
+  bool joining_ = false;
   struct id
   {
     int v = -1;
@@ -221,8 +222,17 @@ struct verif_thread
   bool joinable() const noexcept { return tid_ >= 0; }
   void join()
   {
+    // as std::thread: joining a thread that is not joinable throws; a second join of the same object while the first is
+    // still waiting is a data race on the object - reported the same way (libstdc++: EINVAL from pthread_join)
+    if (tid_ < 0 || joining_)
+    {
+      detsched::note("join-of-a-thread-that-is-not-joinable");
+      throw std::system_error(std::make_error_code(std::errc::invalid_argument));
+    }
+    joining_ = true;
     detsched::thread_join_point(tid_);
-    tid_ = -1;
+    tid_     = -1;
+    joining_ = false;
   }
   void detach() { tid_ = -1; }
   id get_id() const noexcept { return id{tid_}; }
